@@ -506,7 +506,7 @@ func addChainInternal(ctx context.Context, li *logInfo, w http.ResponseWriter, r
 	if rsp == nil {
 		return http.StatusInternalServerError, errors.New("missing QueueLeaves response")
 	}
-	if rsp.QueuedLeaf == nil {
+	if rsp.QueuedLeaf == nil || rsp.QueuedLeaf.Leaf == nil {
 		return http.StatusInternalServerError, errors.New("QueueLeaf did not return the leaf")
 	}
 
